@@ -132,6 +132,23 @@ func isPointer(t types.Type) (ok bool) {
 	return
 }
 
+// MapSlotSizes returns the size of one key slot and of one elem slot of a
+// bucket (maptype.KeySize / ValueSize). Keys and elems larger than
+// MAXKEYSIZE / MAXELEMSIZE are stored indirectly (MapBucketType declares the
+// slot as a pointer and MapTypeFlags sets the indirect flags), so their slot
+// has the size of a pointer, not of the value.
+func MapSlotSizes(t *types.Map, sizes types.Sizes) (keySize, elemSize int64) {
+	ptrSize := sizes.Sizeof(types.Typ[types.UnsafePointer])
+	keySize, elemSize = sizes.Sizeof(t.Key()), sizes.Sizeof(t.Elem())
+	if keySize > MAXKEYSIZE {
+		keySize = ptrSize
+	}
+	if elemSize > MAXELEMSIZE {
+		elemSize = ptrSize
+	}
+	return
+}
+
 func MapTypeFlags(t *types.Map, sizes types.Sizes) (flags int) {
 	if sizes.Sizeof(t.Key()) > MAXKEYSIZE {
 		flags |= 1 // indirect key
